@@ -1297,3 +1297,15 @@ mod tests {
         Ok(())
     }
 }
+
+/// Verification hooks (compiled only with `--cfg maidsafe_safe_network_verif`): re-exports of
+/// crate-private items so that the external /verif harness can drive the real code.
+#[cfg(maidsafe_safe_network_verif)]
+pub mod verif_hooks {
+    pub use crate::cmd::verif as cmd;
+    pub use crate::cmd::{LocalSwarmCmd, NetworkSwarmCmd};
+    pub use crate::record_store::verif as record_store;
+    pub use crate::record_store::{ClientRecordStore, NodeRecordStoreConfig};
+    pub use crate::record_store_api::UnifiedRecordStore;
+    pub use crate::replication_fetcher::verif as replication_fetcher;
+}
